@@ -14,19 +14,19 @@ def uInt? (w : Nat) (s : String) : Option (BitVec w) :=
   | none => none
 
 /-- `k=<kind> v=<value>`: integers in decimal (signed kinds signed), floats as their bits, text and bytes in hex -/
-def parseVal (k : String) (v : Option String) : Option GoVal :=
+def parseVal (P : Params) (k : String) (v : Option String) : Option GoVal :=
   match k, v with
   | "nil", none => some .nil
   | "msg", none => some .msg
   | "unsupported", none => some .unsupported
   | "bool", some "true" => some (.bool true)
   | "bool", some "false" => some (.bool false)
-  | "int", some s => (sInt? 64 s).map .int
+  | "int", some s => (sInt? P.intSize s).map (fun x => .int (x.signExtend 64))
   | "i8", some s => (sInt? 8 s).map .i8
   | "i16", some s => (sInt? 16 s).map .i16
   | "i32", some s => (sInt? 32 s).map .i32
   | "i64", some s => (sInt? 64 s).map .i64
-  | "uint", some s => (uInt? 64 s).map .uint
+  | "uint", some s => (uInt? P.intSize s).map (fun x => .uint (x.setWidth 64))
   | "u8", some s => (uInt? 8 s).map .u8
   | "u16", some s => (uInt? 16 s).map .u16
   | "u32", some s => (uInt? 32 s).map .u32
@@ -59,25 +59,25 @@ def showText : Text → String
   | .fmtFloat b => s!"fmtfloat:{b.toNat}"
 
 /-- every observation of a body -/
-def observe (b : GoVal) : String :=
-  s!"body={showVal b} int={showRes (fun (v : BitVec 64) => toString v.toInt) (bodyToInt params b)} float={showRes (fun (v : BitVec 64) => toString v.toNat) (bodyToFloat b)} str={showRes showText (bodyToString params b)} bytes={showRes hex (bodyToBytes params b)}"
+def observe (P : Params) (b : GoVal) : String :=
+  s!"body={showVal b} int={showRes (fun (v : BitVec 64) => toString v.toInt) (bodyToInt P b)} float={showRes (fun (v : BitVec 64) => toString v.toNat) (bodyToFloat P b)} str={showRes showText (bodyToString P b)} bytes={showRes hex (bodyToBytes P b)}"
 
-def showPacket (p : Packet) : String :=
-  s!"cmd={p.cmd.toInt} seq={p.seq.toNat} typ={p.typ.toInt} flag={p.flg.toNat} node={p.node.toNat} refs={showNatList (p.refers.map BitVec.toNat)} body={showVal p.body} errno={(errno params p).toInt}"
+def showPacket (P : Params) (p : Packet) : String :=
+  s!"cmd={p.cmd.toInt} seq={p.seq.toNat} typ={p.typ.toInt} flag={p.flg.toNat} node={p.node.toNat} refs={showNatList (p.refers.map BitVec.toNat)} body={showVal p.body} errno={(errno P p).toInt}"
 
-def showSent : Res (Nat × Packet) → String
-  | .ok (e, p) => s!"ep={e} {showPacket p}"
+def showSent (P : Params) : Res (Nat × Packet) → String
+  | .ok (e, p) => s!"ep={e} {showPacket P p}"
   | .panic => "panic"
   | .unmodelled => "n/a"
 
-def showRecv : Res Packet → String
-  | .ok p => s!"flag={p.flg.toNat} body={showVal p.body} errno={(errno params p).toInt}"
+def showRecv (P : Params) : Res Packet → String
+  | .ok p => s!"flag={p.flg.toNat} body={showVal p.body} errno={(errno P p).toInt}"
   | .panic => "panic"
   | .unmodelled => "n/a"
 
 /-- the wire ops leave compression and encryption to the codec model: those bits must be clear -/
-def wireFlagOk (f : BitVec 8) : Bool :=
-  f &&& BitVec.ofNat 8 (params.compressedFlag ||| params.encryptedFlag) == 0
+def wireFlagOk (P : Params) (f : BitVec 8) : Bool :=
+  f &&& BitVec.ofNat 8 (P.compressedFlag ||| P.encryptedFlag) == 0
 
 def kvS? (ws : List String) (w : Nat) (key : String) : Option (BitVec w) := (kv? ws key).bind (sInt? w)
 def kvU? (ws : List String) (w : Nat) (key : String) : Option (BitVec w) := (kv? ws key).bind (uInt? w)
@@ -96,38 +96,49 @@ def parseReq (ws : List String) : Option Packet := do
     | none => none
   pure { cmd := cmd, seq := seq, typ := typ, flg := flg, node := node, body := .nil, refers := refs, endpoint := ep }
 
-def drvStep (_ : Unit) (line : String) : Unit × String :=
+/-- `arch bits=32|64 nan=quiet|canon`: the word size and the NaN convention of the build that produced
+the op stream (first line of every stream; without it the platform of the extractor run is assumed).
+Every other line is answered under the parameters in force. -/
+def drvStep (P : Params) (line : String) : Params × String :=
   let ws := words line
+  match ws with
+  | ["arch", b, n] =>
+    let bits? : Option Nat := if b == "bits=64" then some 64 else if b == "bits=32" then some 32 else none
+    let canon? : Option Bool := if n == "nan=canon" then some true else if n == "nan=quiet" then some false else none
+    match bits?, canon? with
+    | some bits, some canon => (archParams bits canon, "ok")
+    | _, _ => (P, "bad-op")
+  | _ =>
   let out : String :=
     match ws with
     | "set" :: _ =>
-      match (kv? ws "k").bind (fun k => parseVal k (kv? ws "v")) with
+      match (kv? ws "k").bind (fun k => parseVal P k (kv? ws "v")) with
       | some v =>
-        match setBody v with
-        | .ok b => observe b
+        match setBody P v with
+        | .ok b => observe P b
         | .panic => "panic"
         | .unmodelled => "n/a"
       | none => "bad-op"
     | "raw" :: _ =>
-      match (kv? ws "k").bind (fun k => parseVal k (kv? ws "v")) with
-      | some v => observe v
+      match (kv? ws "k").bind (fun k => parseVal P k (kv? ws "v")) with
+      | some v => observe P v
       | none => "bad-op"
     | "errno" :: _ =>
       match kvS? ws 32 "cmd", kvU? ws 8 "flag", kvS? ws 32 "ec" with
       | some cmd, some flag, some ec =>
-        let p := setErrno params (mkNew params cmd 0 flag .nil) ec
-        s!"flag={p.flg.toNat} body={showVal p.body} errno={(errno params p).toInt}"
+        let p := setErrno P (mkNew P cmd 0 flag .nil) ec
+        s!"flag={p.flg.toNat} body={showVal p.body} errno={(errno P p).toInt}"
       | _, _, _ => "bad-op"
     | "geterrno" :: _ =>
-      match kvS? ws 32 "cmd", kvU? ws 8 "flag", (kv? ws "k").bind (fun k => parseVal k (kv? ws "v")) with
-      | some cmd, some flag, some v => s!"errno={(errno params (mkNew params cmd 0 flag v)).toInt}"
+      match kvS? ws 32 "cmd", kvU? ws 8 "flag", (kv? ws "k").bind (fun k => parseVal P k (kv? ws "v")) with
+      | some cmd, some flag, some v => s!"errno={(errno P (mkNew P cmd 0 flag v)).toInt}"
       | _, _, _ => "bad-op"
     | "wire" :: _ =>
-      match kvS? ws 32 "cmd", kvU? ws 8 "flag", (kv? ws "k").bind (fun k => parseVal k (kv? ws "v")) with
+      match kvS? ws 32 "cmd", kvU? ws 8 "flag", (kv? ws "k").bind (fun k => parseVal P k (kv? ws "v")) with
       | some cmd, some flag, some v =>
-        if wireFlagOk flag then
-          match setBody v with
-          | .ok b => showRecv (crossWire params (mkNew params cmd 0 flag b))
+        if wireFlagOk P flag then
+          match setBody P v with
+          | .ok b => showRecv P (crossWire P (mkNew P cmd 0 flag b))
           | .panic => "panic:setbody"
           | .unmodelled => "n/a"
         else "bad-op"
@@ -135,7 +146,7 @@ def drvStep (_ : Unit) (line : String) : Unit × String :=
     | "wireerr" :: _ =>
       match kvS? ws 32 "cmd", kvU? ws 8 "flag", kvS? ws 32 "ec" with
       | some cmd, some flag, some ec =>
-        if wireFlagOk flag then showRecv (crossWire params (setErrno params (mkNew params cmd 0 flag .nil) ec))
+        if wireFlagOk P flag then showRecv P (crossWire P (setErrno P (mkNew P cmd 0 flag .nil) ec))
         else "bad-op"
       | _, _, _ => "bad-op"
     | ["putvarint", s] =>
@@ -157,25 +168,25 @@ def drvStep (_ : Unit) (line : String) : Unit × String :=
     | "reply" :: _ =>
       match parseReq ws, kv? ws "op" with
       | some m, some "replywith" =>
-        match kvS? ws 32 "acmd", (kv? ws "k").bind (fun k => parseVal k (kv? ws "v")) with
-        | some acmd, some v => showSent (replyWith params m acmd v)
+        match kvS? ws 32 "acmd", (kv? ws "k").bind (fun k => parseVal P k (kv? ws "v")) with
+        | some acmd, some v => showSent P (replyWith P m acmd v)
         | _, _ => "bad-op"
       | some m, some "reply" =>
         match kvS? ws 32 "mid" with
-        | some mid => showSent (reply params m mid)
+        | some mid => showSent P (reply P m mid)
         | none => "bad-op"
       | some m, some "refusewith" =>
         match kvS? ws 32 "acmd", kvS? ws 32 "ec" with
-        | some acmd, some ec => showSent (refuseWith params m acmd ec)
+        | some acmd, some ec => showSent P (refuseWith P m acmd ec)
         | _, _ => "bad-op"
       | some m, some "refuse" =>
         match kvS? ws 32 "pair", kvS? ws 32 "ec" with
-        | some pair, some ec => showSent (refuse params m pair ec)
+        | some pair, some ec => showSent P (refuse P m pair ec)
         | _, _ => "bad-op"
       | _, _ => "bad-op"
     | _ => "bad-op"
-  ((), out)
+  (P, out)
 
-def drvMain : IO Unit := run () drvStep
+def drvMain : IO Unit := run params drvStep
 
 end Fatchoy.C07
